@@ -7,9 +7,10 @@
      {"@include": filename} and every other member with its content;
    - ToJson::to_json_string(member, config) produces the content of the stand-off
      file, i.e. the member with its content ("what we're about to write is the
-     standoff file", json.rs);
-   - the inherent member.to_json_string() (and ToJson with an unrelated Config)
-     writes the member the way it appears inside the store;
+     standoff file", json.rs), whichever Config is passed (the Config only selects
+     the JSON layout);
+   - the inherent member.to_json_string() writes the member the way it appears
+     inside the store;
    - iterating, searching, querying and the parallel adaptors serialise nothing
      (their own result is compared with the solo result directly by the harness). *)
 From Coq Require Import List Arith Bool.
@@ -31,7 +32,7 @@ Definition spec_out (mem : list fkind) (o : op) : list tok :=
   | OpStore => store_form 0 mem
   | OpMemberTrait i => [t_inline i]
   | OpMemberPlain i => [in_store i (kind_of mem i)]
-  | OpMemberForeign i => [in_store i (kind_of mem i)]
+  | OpMemberForeign i => [t_inline i]
   end.
 
 (* the property for one run: every thread that has finished holds its solo result *)
